@@ -25,6 +25,8 @@ const (
 
 // World is the resolved program the rules query.
 type World struct {
+	tables     map[*ssa.Global][]tableEntry
+	tablesDone map[*ssa.Global]bool
 	Repo   string
 	Fset   *token.FileSet
 	Pkgs   map[string]*packages.Package // short name -> package ("xmpp", "stanza")
